@@ -77,6 +77,8 @@ pub fn monitor(out: &RunOut) -> MonOut {
         let mut resync = false;
         let mut committed_model: Option<Vec<AppState>> = None; // record as of the last commit that matched
         let mut first_probe_seen = false;
+        // last-contact time of the previous commit (a probe restart of it)
+        let mut prev_probe_last: Option<Option<TimeRec>> = None;
         let mut pending_ping: Option<usize> = None;
         // a successful ping happened at this index: its values must be committed before the next wait
         let mut ping_commit_due: Option<usize> = None;
@@ -206,7 +208,8 @@ pub fn monitor(out: &RunOut) -> MonOut {
                         }
                     }
                 }
-                Kind::Probe { apps, .. } => {
+                Kind::Probe { apps, sched, .. } => {
+                    let before = prev_probe_last.replace(sched.last_update_time.clone());
                     if !first_probe_seen {
                         first_probe_seen = true;
                         continue;
@@ -221,6 +224,13 @@ pub fn monitor(out: &RunOut) -> MonOut {
                             let prev_ok = committed_model.as_ref().map(|c| restored(&l.presets, c) == seen).unwrap_or(true);
                             if !prev_ok {
                                 m.viol(p, "R3", &site, format!("committed state restores apps {:?}: neither the previous commit nor the current record {:?}", seen, cur));
+                            } else if let Some(b) = &before {
+                                // the apps are still those of the previous commit: then the check's result
+                                // (its last-contact time) must not be in this commit either
+                                m.count("R3.commits_with_previous_app_data");
+                                if *b != sched.last_update_time {
+                                    m.viol(p, "R3", &site, format!("a commit carries the new last-contact time {:?} but still the previous app data {:?} (current record {:?}): result and per-app data are not committed together", sched.last_update_time, seen, cur));
+                                }
                             }
                         }
                     }
